@@ -548,7 +548,7 @@ def run(ctx):
     rnd = random.Random(ctx.seed * 7919 + 12)
     st = Stats()
     quick = ctx.tier == "quick"
-    cases = corpus_cases() + gen_cases(rnd, 330 if quick else 9000, 14 if quick else 300)
+    cases = corpus_cases() + gen_cases(rnd, 330 if quick else 6000, 14 if quick else 300)
     ncases, divs, nrecv, rdiv = execute(ctx, cases, rnd, st)
     ctx.coverage.update({
         "evaluations": st.frames + nrecv,
@@ -565,7 +565,7 @@ def run(ctx):
     })
     ncut = cutvalue_pass(ctx, random.Random(ctx.seed * 7 + 3), 1500 if ctx.tier == "quick" else 30000)
     ctx.coverage["evaluations"] = ctx.coverage.get("evaluations", 0) + ncut
-    nhuge = huge_pass(ctx, random.Random(ctx.seed * 11 + 5), 3 if ctx.tier == "quick" else 40)
+    nhuge = huge_pass(ctx, random.Random(ctx.seed * 11 + 5), 3 if ctx.tier == "quick" else 10)
     ctx.coverage["evaluations"] += 2 * nhuge
     if divs or rdiv:
         # a divergence alone is not a violation: look for a failing input around it first
